@@ -78,6 +78,7 @@ TrDeliver == /\ IsEvent("deliver")
              /\ Ev.err = ""
              /\ LET ms == [i \in 1..Len(Ev.op.batch) |-> net[Ev.op.batch[i]]] IN
                 /\ \A i \in 1..Len(ms) : ms[i] \in msgs /\ ms[i].a # Ev.n
+                /\ \A i \in 1..Len(ms) : HoleOnly(ms[i]) => \E b \in nodes[Ev.n].rows[ms[i].a].bufs : b[1] = ms[i].v
                 /\ nodes' = [nodes EXCEPT ![Ev.n] = IF Ev.post.auto THEN SettleF(DeliverF(@, ms)) ELSE DeliverF(@, ms)]
              /\ NodeMatches(nodes'[Ev.n], Ev.n, Ev.post)
              /\ UNCHANGED <<txlog, msgs, net>>
